@@ -30,7 +30,7 @@ from capstone import mips_const as MIPS
 from capstone import x86_const as X86
 
 import gtirb_rewriting
-from gtirb_rewriting import Constraints, InsertionContext
+from gtirb_rewriting import Constraints, InsertionContext, RewritingContext
 from gtirb_rewriting.abi import ABI, CallingConventionDesc
 from gtirb_rewriting.assembler import Assembler
 from gtirb_rewriting.patches import CallPatch
@@ -46,6 +46,8 @@ TARGETS = {
     "mips32": (ISA.MIPS32, FF.ELF, capstone.CS_ARCH_MIPS,
                capstone.CS_MODE_MIPS32 + capstone.CS_MODE_BIG_ENDIAN),
 }
+NOPS = {ISA.X64: b"\x90", ISA.IA32: b"\x90", ISA.ARM64: b"\x1f\x20\x03\xd5",
+        ISA.MIPS32: b"\x00\x00\x00\x00"}
 CALLEE = "callee_fn"
 LIMIT = 1 << 24          # offsets / adjustments beyond this are not modelled
 
@@ -63,15 +65,29 @@ class Target:
         self.name = abi_name
         self.ir = gtirb.IR()
         self.module = gtirb.Module(name="m", isa=isa, file_format=ff, ir=self.ir)
-        if isa == ISA.MIPS32:
-            self.module.byte_order = gtirb.Module.ByteOrder.Big
         sect = gtirb.Section(
             name=".text", module=self.module,
             flags={gtirb.Section.Flag.Readable, gtirb.Section.Flag.Executable,
                    gtirb.Section.Flag.Loaded, gtirb.Section.Flag.Initialized})
-        bi = gtirb.ByteInterval(contents=b"\0" * 16, address=0x1000, section=sect)
-        self.block = gtirb.CodeBlock(offset=0, size=8, byte_interval=bi)
-        self.data = gtirb.CodeBlock(offset=8, size=8, byte_interval=bi)
+        self.module.byte_order = (gtirb.Module.ByteOrder.Big if isa == ISA.MIPS32
+                                  else gtirb.Module.ByteOrder.Little)
+        # insertion sites: block blk<i> = 16 bytes of nops at 0x1000 + 64 * i,
+        # in a byte interval of its own, carrying the symbol blk<i>
+        nop = NOPS[isa]
+        self.nopsize = len(nop)
+        self.blocks: List[gtirb.CodeBlock] = []
+        self.intervals: List[gtirb.ByteInterval] = []
+        self.blocksym: Dict[int, gtirb.Symbol] = {}
+        for i in range(3):
+            bi = gtirb.ByteInterval(contents=nop * (16 // len(nop)), address=0x1000 + 64 * i,
+                                    section=sect)
+            b = gtirb.CodeBlock(offset=0, size=16, byte_interval=bi)
+            self.blocks.append(b)
+            self.intervals.append(bi)
+            self.blocksym[id(b)] = gtirb.Symbol(f"blk{i}", payload=b, module=self.module)
+        self.block = self.blocks[0]
+        dbi = gtirb.ByteInterval(contents=b"\0" * 8, address=0x2000, section=sect)
+        self.data = gtirb.CodeBlock(offset=0, size=8, byte_interval=dbi)
         self.syms: Dict[str, gtirb.Symbol] = {}
         self.callee = gtirb.Symbol(CALLEE, payload=gtirb.ProxyBlock(module=self.module),
                                    module=self.module)
@@ -396,9 +412,11 @@ def decode(t: Target, data: bytes, sx: Dict[int, str], cuts: Tuple[int, int]):
 def constraints_of(case: dict) -> Constraints:
     return Constraints(
         clobbers_flags=bool(case["flags"]),
-        clobbers_registers=set(case["clob"]),
+        # the names as the patch author spelled them (upper case, sub-register
+        # names, ...); clob / reads are the same registers by identity
+        clobbers_registers=set(case.get("clobsp", case["clob"])),
         scratch_registers=int(case["scratch"]),
-        reads_registers=set(case["reads"]),
+        reads_registers=set(case.get("readsp", case["reads"])),
         align_stack=bool(case["align"]),
         preserve_caller_saved_registers=bool(case["pcs"]),
     )
@@ -407,7 +425,19 @@ def constraints_of(case: dict) -> Constraints:
 def make_call_patch(t: Target, case: dict, cblog: list) -> CallPatch:
     args = []
     for pos, a in enumerate(case["args"]):
-        if a["k"] == "sym":
+        k = a["k"]
+        if k in ("ctxoff", "ctxaddr", "ctxsym"):
+            # argument callables whose result depends on the insertion context
+            def cfn(ctx, _k=k, _p=pos):
+                cblog.append((_p, ctx))
+                if _k == "ctxoff":
+                    return 512 + ctx.offset
+                if _k == "ctxaddr":
+                    return ctx.block.address
+                return t.blocksym[id(ctx.block)]
+            args.append(cfn)
+            continue
+        if k == "sym":
             val: Any = t.symbol(a["s"])
         else:
             val = int.from_bytes(bytes(a["b"]), "little", signed=bool(a["sg"]))
@@ -431,27 +461,41 @@ def make_call_patch(t: Target, case: dict, cblog: list) -> CallPatch:
     return CallPatch(t.callee, args, conv, **kwargs)
 
 
-def run_case(case: dict) -> dict:
-    t = target(case["abi"])
-    kind = case["kind"]
-    tr: Dict[str, Any] = {
-        "id": case["id"], "cfg": {k: v for k, v in case.items() if k != "id"},
-        "exc": "", "stage": "init", "ood": False, "oodwhy": "",
-        "pro": [], "body": [], "epi": [], "adjknown": True, "adj": 0,
-        "scratch": [], "declclob": [], "cb": [], "text": [],
-    }
-    cblog: List[Tuple[int, Any]] = []
-    try:
-        if kind == "c17":
-            tr["stage"] = "construct"
-            patch = make_call_patch(t, case, cblog)
-            constraints = patch.constraints
-            syntax = constraints.x86_syntax
-        else:
-            constraints = constraints_of(case)
-            patch = None
-            syntax = constraints.x86_syntax
-        tr["declclob"] = sorted({t.canon(r) for r in constraints.clobbers_registers})
+def empty_obs() -> Dict[str, Any]:
+    return {"pro": [], "body": [], "epi": [], "adjknown": True, "adj": 0, "scratch": [], "cb": []}
+
+
+def cb_records(calls: List[Tuple[int, Any]], ctx) -> List[dict]:
+    # "same": what the callable received equals, field by field, the context
+    # get_asm was given (module, function, block, offset, stack_adjustment,
+    # scratch_registers)
+    return [{"i": p, "same": bool(c == ctx), "isctx": isinstance(c, InsertionContext)}
+            for p, c in calls]
+
+
+def split_and_decode(t: Target, data: bytes, sx: Dict[int, str], pro_parts, epi_parts, obs: dict):
+    """data = prologue + body + epilogue as emitted; finds the two boundaries
+    from stand-alone assemblies of prologue and epilogue, decodes."""
+    pdata, _ = assemble(t, pro_parts)
+    edata, _ = assemble(t, epi_parts)
+    if not (data.startswith(pdata) and data.endswith(edata)
+            and len(pdata) + len(edata) <= len(data)):
+        raise OutOfDomain("prologue/epilogue bytes depend on their context")
+    parts, text = decode(t, data, sx, (len(pdata), len(data) - len(edata)))
+    obs["pro"], obs["body"], obs["epi"] = parts
+    return text
+
+
+def run_direct(t: Target, case: dict, patch, constraints, tr: dict, cblog: list) -> List[dict]:
+    """Allocation, prologue / epilogue, get_asm and assembly exactly as
+    RewritingContext._invoke_patch does them, once per insertion site, with
+    ONE patch object."""
+    sites = case.get("sites") or [{"blk": 0, "off": 0}]
+    syntax = constraints.x86_syntax
+    out = []
+    for site in sites:
+        obs = empty_obs()
+        out.append(obs)
         tr["stage"] = "allocate"
         registers = t.abi._allocate_patch_registers(constraints)
         scratch = [r.name for r in registers.scratch_registers]
@@ -460,33 +504,111 @@ def run_case(case: dict) -> dict:
             constraints, registers, bool(case["leaf"]))
         prologue = list(prologue)
         epilogue = list(epilogue)
-        tr["scratch"] = scratch
-        tr["adjknown"] = adj is not None
-        tr["adj"] = int(adj) if adj is not None else 0
-        ctx = InsertionContext(t.module, None, t.block, 0)
+        obs["scratch"] = scratch
+        obs["adjknown"] = adj is not None
+        obs["adj"] = int(adj) if adj is not None else 0
+        ctx = InsertionContext(t.module, None, t.blocks[site["blk"]], int(site["off"]))
         ctx = dataclasses.replace(ctx, stack_adjustment=adj,
                                   scratch_registers=registers.scratch_registers)
         tr["stage"] = "get_asm"
+        del cblog[:]
         body = patch.get_asm(ctx) if patch is not None else "nop"
-        # "same": what the callable received equals, field by field, the
-        # context get_asm was given (module, function, block, offset,
-        # stack_adjustment, scratch_registers)
-        tr["cb"] = [{"i": p, "same": bool(c == ctx), "isctx": isinstance(c, InsertionContext)}
-                    for p, c in cblog]
+        obs["cb"] = cb_records(cblog, ctx)
         tr["stage"] = "assemble"
         pro_parts = [(s.code, s.x86_syntax) for s in prologue]
         epi_parts = [(s.code, s.x86_syntax) for s in epilogue]
         data, sx = assemble(t, pro_parts + [(body, syntax)] + epi_parts)
         tr["stage"] = "decode"
-        pdata, _ = assemble(t, pro_parts)
-        edata, _ = assemble(t, epi_parts)
-        if not (data.startswith(pdata) and data.endswith(edata)
-                and len(pdata) + len(edata) <= len(data)):
-            raise OutOfDomain("prologue/epilogue bytes depend on their context")
-        parts, text = decode(t, data, sx, (len(pdata), len(data) - len(edata)))
-        tr["pro"], tr["body"], tr["epi"] = parts
+        text = split_and_decode(t, data, sx, pro_parts, epi_parts, obs)
         if os.environ.get("VERIF_DEBUG"):
-            tr["text"] = text          # disassembly, for humans only
+            tr["text"] = tr["text"] + text          # disassembly, for humans only
+    return out
+
+
+def run_rewrite(t: Target, case: dict, patch, constraints, tr: dict, cblog: list) -> List[dict]:
+    """The ONE patch object is inserted at every site by a real
+    RewritingContext; the code found at each site afterwards is decoded."""
+    sites = case["sites"]
+    calls: List[Tuple[Any, List[Tuple[int, Any]]]] = []
+    orig = patch.get_asm
+
+    def spy(ctx):
+        del cblog[:]
+        try:
+            return orig(ctx)
+        finally:
+            calls.append((ctx, list(cblog)))
+
+    patch.get_asm = spy
+    tr["stage"] = "rewrite"
+    rc = RewritingContext(t.module, [])
+    for site in sites:
+        rc.insert_at(t.blocks[site["blk"]], int(site["off"]), patch)
+    rc.apply()
+    tr["stage"] = "decode"
+    # prologue / epilogue of this constraints value (blocks outside functions
+    # are possibly-leaf code), only to find the boundaries of the body
+    registers = t.abi._allocate_patch_registers(constraints)
+    prologue, epilogue, _ = t.abi._create_prologue_and_epilogue(constraints, registers, True)
+    pro_parts = [(s.code, s.x86_syntax) for s in prologue]
+    epi_parts = [(s.code, s.x86_syntax) for s in epilogue]
+    out = []
+    for site in sites:
+        obs = empty_obs()
+        out.append(obs)
+        blk = t.blocks[site["blk"]]
+        mine = [(c, cb) for c, cb in calls if c.block is blk and c.offset == int(site["off"])]
+        if len(mine) != 1:
+            raise OutOfDomain(f"{len(mine)} get_asm calls for site {site}")
+        ctx, cbs = mine[0]
+        adj = ctx.stack_adjustment
+        obs["adjknown"] = adj is not None
+        obs["adj"] = int(adj) if adj is not None else 0
+        obs["scratch"] = [r.name for r in ctx.scratch_registers]
+        obs["cb"] = cb_records(cbs, ctx)
+        bi = t.intervals[site["blk"]]
+        whole = bytes(bi.contents)
+        off = int(site["off"])
+        tail = 16 - off
+        if len(whole) < 16 or whole[:off] != NOPS[t.module.isa] * (off // t.nopsize):
+            raise OutOfDomain("site block not found where it was")
+        data = whole[off:len(whole) - tail]
+        sx = {}
+        for o, e in bi.symbolic_expressions.items():
+            names = [x.name for x in e.symbols]
+            sx[o - off] = names[0] if len(names) == 1 else "?"
+        text = split_and_decode(t, data, sx, pro_parts, epi_parts, obs)
+        if os.environ.get("VERIF_DEBUG"):
+            tr["text"] = tr["text"] + text
+    return out
+
+
+def run_case(case: dict) -> dict:
+    kind = case["kind"]
+    rewrite = kind == "c17" and case.get("mode") == "rewrite"
+    # the rewriter modifies the module: a fresh one for such a case
+    t = Target(case["abi"]) if rewrite else target(case["abi"])
+    tr: Dict[str, Any] = {
+        "id": case["id"], "cfg": {k: v for k, v in case.items() if k != "id"},
+        "exc": "", "stage": "init", "ood": False, "oodwhy": "",
+        "declclob": [], "text": [], "more": [],
+    }
+    tr.update(empty_obs())
+    cblog: List[Tuple[int, Any]] = []
+    obs: List[dict] = []
+    try:
+        if kind == "c17":
+            tr["stage"] = "construct"
+            patch = make_call_patch(t, case, cblog)
+            constraints = patch.constraints
+        else:
+            constraints = constraints_of(case)
+            patch = None
+        tr["declclob"] = sorted({t.canon(r) for r in constraints.clobbers_registers})
+        if rewrite:
+            obs = run_rewrite(t, case, patch, constraints, tr, cblog)
+        else:
+            obs = run_direct(t, case, patch, constraints, tr, cblog)
         tr["stage"] = "done"
     except OutOfDomain as e:
         tr["ood"] = True
@@ -495,6 +617,10 @@ def run_case(case: dict) -> dict:
         tr["exc"] = type(e).__name__
         if os.environ.get("VERIF_DEBUG"):
             traceback.print_exc()
+    if obs:
+        tr.update(obs[0])               # first site at the top level
+    if tr["stage"] == "done":
+        tr["more"] = obs[1:]            # further sites of a history
     return tr
 
 
